@@ -305,14 +305,13 @@ def gate_calls(ctx, b):
         if cs.node is None or dl is None or ctx.E.call_may(cs, 'MEM'):
             continue
         if err_type_of(b.local_ty(dl)) == 'error::MissingQueue':
-            for c2 in b.calls:
-                if c2.name.endswith('::branch') and c2.arg_local(0) is not None and dl in alias_paths(b, dl) and c2.arg_local(0) in alias_paths(b, dl):
-                    k2 = alias_paths(b, c2.dest_local())
-                    for (bj, pl, adt, edges) in b.discr_switches():
-                        if place_path(k2, pl) == [()] and 'Continue' in edges and 'Break' in edges:
-                            gates.append({'kind': 'missing', 'call': cs, 'true': edges['Continue'], 'false': edges['Break']})
+            from core import result_edges
+            re_ = result_edges(b, dl)
+            for (oe, ee) in zip(re_['ok'], re_['err']):
+                gates.append({'kind': 'missing', 'call': cs, 'true': oe, 'false': ee})
     # comparisons: retry gate (Eq) and past gate (Lt) between a value from the position argument and the next position
-    np_calls = [cs for cs in b.calls if cs.node is not None and cs.dest_local() is not None and err_type_of(b.local_ty(cs.dest_local())) == 'error::MissingQueue' and b.local_ty(cs.dest_local()).startswith('std::result::Result<u64')]
+    from vocab import next_position_calls
+    np_calls = next_position_calls(ctx, b)
     t_next = set()
     for cs in np_calls:
         t_next |= fl.forward(set(fl.call_result_nodes(cs)))
@@ -348,6 +347,16 @@ def quiet_exits(ctx, b):
             adt, v = e.get('adt'), e.get('variant')
             if adt in iob and iob[adt].get(v):
                 continue
+            # `match call() { Err(x) => return Err(Conv(x)) }` is the explicit spelling of `call()?`
+            c = b.err_exit_origin(e)
+            if c is not None and c.node is not None:
+                if ctx.E.call_may(c, 'MEM'):
+                    continue        # post-effect conversion: QX2's business, like its `?` twin
+                dl = c.dest_local()
+                et = err_type_of(b.local_ty(dl)) if dl is not None else None
+                if et is not None and et != 'std::io::Error' and et not in iob:
+                    out.append(('reject-gate:%s' % et.split('::')[-1], e))
+                    continue
             out.append(('reject:%s' % (v or '?'), e))
         elif e['kind'] == 'err_prop':
             c = e.get('call')
@@ -402,9 +411,12 @@ def qx2(ctx):
         gates = gate_calls(ctx, b)
         logs = [cs.point for cs in log_sites(ctx, b)]
         for e in b.exits():
-            if e['kind'] != 'err_prop':
+            if e['kind'] == 'err_prop':
+                c = e.get('call')
+            elif e['kind'] == 'err':
+                c = b.err_exit_origin(e)      # explicit `match .. { Err(x) => return Err(Conv(x)) }`
+            else:
                 continue
-            c = e.get('call')
             if c is None or not hasattr(c, 'node') or c.node is None or not ctx.E.call_may(c, 'MEM'):
                 continue
             dl = c.dest_local()
